@@ -56,7 +56,7 @@ func genCase(kind string) func(t *rapid.T) Case {
 		var behs, kinds []string
 		switch kind {
 		case "C06":
-			c.Full = true
+			c.Full = rapid.IntRange(0, 2).Draw(t, "full6") != 0 // 1/3: timer callbacks may stay parked across the next call
 			behs = []string{"untilcancel", "untilcancel", "success", "error", "nilroutine"}
 			kinds = []string{"setkey", "setkey", "setkey", "removekey", "removekey", "synckeys", "synckeys", "getkey", "setctx", "advance", "advance", "advance"}
 		case "C06rc":
@@ -220,6 +220,8 @@ func body(c *sched.Ctl, cs Case, v *ev.Verdict) {
 		m.bo = cs.Backoff
 	}
 	cleanup := false
+	resultDeviations := 0
+	noteResult := func(sig, f string, a ...any) { resultDeviations++ } // documented return values outside C06/C07: counted only
 	var insts []*instance
 	ctorCalls := 0
 	ctorN := map[int]int{}
@@ -249,7 +251,10 @@ func body(c *sched.Ctl, cs Case, v *ev.Verdict) {
 					break
 				}
 			}
-			if in.tok == nil {
+			if _, known := m.byID[recIdx]; !known {
+				// the constructor ran although the model's key set did not ask for it: a key-set divergence (C06)
+				fail("C06", "keyed:unexpected-construction", "key %d: a routine was constructed and started although the key is present in the model (record %d unknown)", key, recIdx)
+			} else if in.tok == nil {
 				fail("C07", "keyed:unexpected-run", "key %d: the routine of record %d was entered by a goroutine the reference machine did not start", key, recIdx)
 			} else if in.tok.rec.id != recIdx {
 				fail("C07", "keyed:wrong-record", "key %d: goroutine bound to record %d runs the routine of record %d", key, in.tok.rec.id, recIdx)
@@ -377,7 +382,11 @@ func body(c *sched.Ctl, cs Case, v *ev.Verdict) {
 				effect = mex && !ex
 			}
 			if err := m.TimerSection(ts.retry, ts.key, effect); err != nil {
-				fail("C07", "keyed:unexpected-timer-effect", "%v", err)
+				if ts.retry {
+					fail("C07", "keyed:unexpected-retry", "%v", err)
+				} else {
+					fail("C06", "keyed:unexpected-removal", "%v", err)
+				}
 			}
 		}
 		for _, tk := range pend {
@@ -731,7 +740,7 @@ func body(c *sched.Ctl, cs Case, v *ev.Verdict) {
 				hm.Lock()
 				defer hm.Unlock()
 				if e != we || r != wr {
-					fail("C07", "keyed:restart-result", "%s(%d, cond=%q)=(%v,%v), the machine says (%v,%v)", op.K, op.Key, op.Cond, e, r, we, wr)
+					noteResult("keyed:restart-result", "%s(%d, cond=%q)=(%v,%v), the machine says (%v,%v)", op.K, op.Key, op.Cond, e, r, we, wr)
 				}
 				checkCancelled(op.K)
 			})
@@ -771,7 +780,7 @@ func body(c *sched.Ctl, cs Case, v *ev.Verdict) {
 				hm.Lock()
 				defer hm.Unlock()
 				if n != wn || tot != wt {
-					fail("C07", "keyed:restartall-result", "%s(cond=%q)=(%d,%d), the machine says (%d,%d)", op.K, op.Cond, n, tot, wn, wt)
+					noteResult("keyed:restartall-result", "%s(cond=%q)=(%d,%d), the machine says (%d,%d)", op.K, op.Cond, n, tot, wn, wt)
 				}
 				checkCancelled(op.K)
 			})
@@ -981,6 +990,9 @@ func body(c *sched.Ctl, cs Case, v *ev.Verdict) {
 	}
 	if midExit {
 		v.Class("call-between-return-and-exit-bookkeeping")
+	}
+	if resultDeviations > 0 {
+		v.Class("restart-return-value-differs-from-machine")
 	}
 }
 
